@@ -264,3 +264,29 @@ def missing_mask_passthrough(P: Program, R: Report, rule: str) -> None:
                             R.fail(rule, g, ie, f"{g.short}: the mask is normalised to None only when it flags nothing",
                                    f"`{norm(ie)[:80]}`: a mask that flags some elements is dropped")
     R.floor(rule, "renamed (values, missing) records", n, 1)
+    # ---- R14.9 a graph that is rebuilt for export takes the edges WITH their attributes
+    rebuilt_graph_keeps_edge_data(P, R, "R14.9")
+
+
+def rebuilt_graph_keeps_edge_data(P: Program, R: Report, rule: str) -> None:
+    """`G.add_edges_from(H.edges)` copies the edge set and drops every edge attribute; `H.edges(data=True)` (or
+    `H.copy()`) keeps them.  In the export path a rebuilt graph without edge data writes no edge property at all."""
+    from ..resolve import Resolver
+
+    n = 0
+    for fn in P.functions.values():
+        if fn.parent is not None or ".import_export." not in fn.qname or "export" not in fn.qname:
+            continue
+        rs = None
+        for c in ast.walk(fn.node):
+            if isinstance(c, ast.Call) and call_name(c) in ("add_edges_from", "add_edge") and c.args:
+                rs = rs or Resolver(P, fn)
+                src = rs.text(c.args[0])
+                if "graph.edges" not in src and ".edges" not in src:
+                    continue
+                n += 1
+                with_data = "data=True" in src.replace(" ", "") or "data=" in src
+                R.check(with_data, rule, fn, c, f"{fn.short}: edges copied into a rebuilt graph keep their attributes",
+                        f"`{norm(c)[:70]}` copies the edge set only: every edge feature (iou, custom attributes) is missing from the exported file", via="syntax")
+    if n == 0:
+        R.ok(rule, "import_export", "", "no exporter rebuilds a graph edge by edge (copies keep the edge attributes)", via="syntax")
